@@ -24,6 +24,8 @@ type PropConfig struct {
 	Assumed    []string `json:"assumed"`
 	Bounded    []string `json:"bounded"` // names of bounded stand-in harnesses
 	Lemmas     []string `json:"lemmas"`  // lemma smt2 files (relative to /verif/lemmas)
+	RecursionSweep []string `json:"recursion_sweep"` // package short names swept for unproved recursion
+	RecursionAllow []string `json:"recursion_allow"` // structural recursions over finite input data, listed as assumptions
 }
 
 type KnownFinding struct {
@@ -128,6 +130,9 @@ func runCheck(prop string, thorough bool, repo string, writeExpected bool) int {
 	lemmaObls := eng.LemmaObligations(reports, prop)
 	all = append(all, lemmaObls...)
 	all = append(all, eng.WriterObligations(prop)...)
+	for _, rp := range pc.RecursionSweep {
+		all = append(all, eng.RecursionObligations(rp, prop, pc.RecursionAllow)...)
+	}
 	vc.SolveAll(all, timeout, need)
 
 	if writeExpected {
@@ -156,12 +161,19 @@ func runCheck(prop string, thorough bool, repo string, writeExpected bool) int {
 	var knownHit []string
 	nObl, nDis := 0, 0
 	nVac, nVacOK := 0, 0
+	var unreachable []string
 	var solverMs int64
 	backends := map[string]int{}
 	for _, o := range all {
 		generated[o.Name] = true
 		solverMs += o.Res.Ms
 		outs = append(outs, oblOut{Name: o.Name, Kind: o.Kind, Verdict: o.Res.Verdict, Backend: o.Res.Backend, Ms: o.Res.Ms, Text: o.Text, Line: relLine(o.Line)})
+		if o.ExpectFail && o.Info {
+			if o.Res.Verdict == "unsat" {
+				unreachable = append(unreachable, o.Name)
+			}
+			continue
+		}
 		if o.ExpectFail {
 			nVac++
 			switch o.Res.Verdict {
@@ -225,6 +237,7 @@ func runCheck(prop string, thorough bool, repo string, writeExpected bool) int {
 		"solver_time_s": float64(solverMs) / 1000.0,
 		"backends":      backends,
 		"known_findings_hit": knownHit,
+		"unreachable_returns": unreachable,
 		"bounded":       boundedOut,
 	}
 	writeEvidence(prop, tier, seed, t0, reports, outs, extra, pc, violations, structErrs, []int{nObl, nDis})
@@ -370,6 +383,9 @@ func writeEvidence(prop, tier string, seed int, t0 time.Time, reports []*vc.Unit
 	if pc != nil {
 		for _, a := range pc.Assumed {
 			assumptions = append(assumptions, "assumed: "+a)
+		}
+		for _, a := range pc.RecursionAllow {
+			assumptions = append(assumptions, "assumed terminating (structural recursion over finite input data, not proved): "+a)
 		}
 		for _, a := range pc.NotDecided {
 			assumptions = append(assumptions, "not decided by this check: "+a)
